@@ -163,7 +163,7 @@ def base_env(pid, incrate):
     env["CARGO_NET_OFFLINE"] = "true"
     env.pop("RUSTUP_TOOLCHAIN", None)
     for k, v in PROPS[pid].get("env", {}).items():
-        env[k] = v
+        env[k] = os.environ.get("VERIF_OVERRIDE_" + k, v)
     return env
 
 
